@@ -908,12 +908,13 @@ const SC: &[(&str, usize)] = &[
     ("gd", 64),
     ("ge", 16),
     ("gw", 128),
+    ("gx", 256),
     ("gf", 1),
     ("gg", 1),
     ("gp", 64),
     ("gq", 64),
 ];
-const WIDTHS: &[usize] = &[1, 8, 16, 32, 64, 128];
+const WIDTHS: &[usize] = &[1, 8, 16, 32, 64, 128, 256];
 
 struct Gen<'a> {
     rng: &'a mut Rng,
@@ -1269,16 +1270,16 @@ pub fn generate(run_seed: u64, index: u64) -> Script {
             for _ in 0..n {
                 let op = match g.rng.below(20) {
                     0..=10 => {
-                        let s = *g.rng.pick(&SC[..8]);
+                        let s = *g.rng.pick(&SC[..9]);
                         OpSpec::Assign(s.0.into(), s.1, g.expr(s.1, 3))
                     }
                     11..=13 => {
-                        let w = *g.rng.pick(&[8usize, 16, 32, 64, 128]);
+                        let w = *g.rng.pick(&[8usize, 16, 32, 64, 128, 256]);
                         let a = g.address(w as u64 / 8);
                         OpSpec::Store(a, g.expr(w, 2))
                     }
                     14..=16 => {
-                        let s = *g.rng.pick(&[("ga", 32usize), ("gb", 32), ("gc", 8), ("gd", 64), ("ge", 16), ("gw", 128)]);
+                        let s = *g.rng.pick(&[("ga", 32usize), ("gb", 32), ("gc", 8), ("gd", 64), ("ge", 16), ("gw", 128), ("gx", 256)]);
                         let a = g.address(s.1 as u64 / 8);
                         OpSpec::Load(s.0.into(), s.1, a)
                     }
@@ -1291,7 +1292,7 @@ pub fn generate(run_seed: u64, index: u64) -> Script {
                             0 => OpSpec::Branch(ExprSpec::cu(0x10_0000 + 4 * g.rng.below(40), 64)),
                             1 => OpSpec::Branch(ExprSpec::cu(g.rng.next() & 0xffff_fff0, 64)),
                             2 => {
-                                let s = *g.rng.pick(&SC[..8]);
+                                let s = *g.rng.pick(&SC[..9]);
                                 OpSpec::Assign(s.0.into(), s.1, g.expr(s.1, 1))
                             }
                             _ => OpSpec::Store(g.address(4), g.expr(32, 1)),
@@ -1431,7 +1432,7 @@ pub fn generate(run_seed: u64, index: u64) -> Script {
                 if matches!(blocks[b].last().map(|i| &i.op), Some(OpSpec::Branch(_))) || !g.rng.chance(2, 3) {
                     continue;
                 }
-                let sc = *g.rng.pick(&SC[..8]);
+                let sc = *g.rng.pick(&SC[..9]);
                 let op = if g.rng.chance(1, 4) { OpSpec::Nop } else { OpSpec::Assign(sc.0.into(), sc.1, g.expr(sc.1, 2)) };
                 appended.push((b, InstrSpec { op, address: Some(0x17_0000 + 4 * appended.len() as u64) }));
             }
@@ -1473,7 +1474,7 @@ pub fn generate(run_seed: u64, index: u64) -> Script {
             8 if rng.chance(1, 2) => actions.push(Action::Observe { p }),
             8 => {
                 let scalar = if rng.chance(2, 3) {
-                    let sc = *rng.pick(&SC[..8]);
+                    let sc = *rng.pick(&SC[..9]);
                     let v = if sc.1 < 8 {
                         Val::from_u64(rng.below(2), sc.1)
                     } else {
